@@ -96,6 +96,14 @@ def countLoopExempt : List (String × String × String) := [
 theorem count_loops_consume :
     ∀ l ∈ countLoops, l.2.2.2 = true ∨ (l.1, l.2.1, l.2.2.1) ∈ countLoopExempt := by decide +kernel
 
+/-- **Regular expressions.** Every `re.*` call that gen/loops.py finds in the three parser modules uses a
+    pattern whose text is in the hand-audited list of linear-time patterns (Model/Loops.lean, one reason
+    each) and that passes the translator's syntactic test for catastrophic shapes (a repeated group that can
+    match the empty string or contains an overlapping variable repeat / alternation; adjacent overlapping
+    variable repeats).  A new or changed pattern text breaks this theorem until it is audited. -/
+theorem regexes_linear :
+    ∀ r ∈ regexes, r.2.2.2 = false ∧ auditedRegexes.any (·.1 == r.2.2.1) = true := by decide +kernel
+
 /-- **Generic loop.** Whatever the body, if every continuing iteration moves the position forward, the
     loop is never stuck and its iterations are bounded by the distance to the limit. -/
 theorem progress_loop_bound {σ ρ : Type} (body : Nat → σ → Iter σ ρ) (limit pos : Nat) (st : σ)
